@@ -164,7 +164,11 @@ func c15KvGen(r *verifh.Rng) []verifh.Section {
 				if len(args) == 0 {
 					continue
 				}
-				ops = append(ops, "call "+m.name+" "+strings.Join(args, ","))
+				name := m.name
+				if strings.HasSuffix(name, "Ctx") && r.Chance(1, 4) {
+					name += "+cancel" // a context that is already cancelled: the key is dispatched all the same
+				}
+				ops = append(ops, "call "+name+" "+strings.Join(args, ","))
 			}
 			return ops
 		}
@@ -278,6 +282,15 @@ func c15Call(s Store, name string, strs []string) (ret string) {
 			ret = "ret=PANIC"
 		}
 	}()
+	ctx := context.Background()
+	if i := strings.IndexByte(name, '+'); i >= 0 {
+		if name[i:] == "+cancel" {
+			c, cancel := context.WithCancel(ctx)
+			cancel()
+			ctx = c
+		}
+		name = name[:i]
+	}
 	m := reflect.ValueOf(s).MethodByName(name)
 	if !m.IsValid() {
 		return "bad-method"
@@ -313,7 +326,7 @@ func c15Call(s Store, name string, strs []string) (ret string) {
 		}
 		switch {
 		case pt == c15CtxT:
-			in = append(in, reflect.ValueOf(context.Background()))
+			in = append(in, reflect.ValueOf(ctx))
 		case pt == c15StringT:
 			x, ok := str()
 			if !ok {
